@@ -1418,9 +1418,8 @@ impl W {
         }
         // C13: a rewritten payload only drops record 16
         if let Some(p) = rs.strip_prefix("continue:") {
-            let req = tpl.spec.request(self.sim.with(|s| s.height));
-            let all = crate::engine_i::lenient_parse_pub(&crate::tlv::ToBytes::to_bytes(req.onion.payload.clone()));
-            let want: Vec<(u64, Vec<u8>)> = all.into_iter().filter(|r| r.0 != 16).collect();
+            // reference: the records the scenario put on the wire (not what the plugin's decoder made of them)
+            let want: Vec<(u64, Vec<u8>)> = tpl.spec.records().into_iter().filter(|r| r.0 != 16).collect();
             let want = crate::engine_i::ref_encode_stream(&want);
             if hex::encode(&want) != p {
                 self.violate(
@@ -1703,7 +1702,7 @@ impl W {
             Ev::Deliver(t) => {
                 let cfg = Arc::clone(&self.cfg);
                 let height = self.sim.with(|s| s.height);
-                let req = cfg.templates[*t].spec.request(height);
+                let req = cfg.templates[*t].spec.wire_request(height);
                 self.view.add(&("deliver", t, height));
                 // bookkeeping for rejection triggers (C04 / C07), before the plugin sees it
                 self.note_delivery(*t, height);
